@@ -29,7 +29,7 @@ def warm():
 
 
 def run(res, tier, seed):
-    lib_fsm.run_property(res, "C22", tier, seed, THEOREMS, MODULES, EXTRA, FAMILIES, 380, 6000, dump_all=False)
+    lib_fsm.run_property(res, "C22", tier, seed, THEOREMS, MODULES, EXTRA, FAMILIES, 380, 4000, dump_all=False)
 
 
 def replay(res, path):
